@@ -53,6 +53,7 @@ type Link struct {
 	blackhole                       bool
 	hold                            bool  // deliveries suspended (packets stay in flight)
 	sendErr                         error // when set, send fails (transport broken)
+	stall                           bool  // send blocks until its context is done (a transport that accepts nothing)
 }
 
 func newLink(w *World, name string) *Link {
@@ -63,6 +64,16 @@ func (l *Link) send(ctx context.Context, b []byte) error {
 	vrt.Point("net.send:" + l.name)
 	if err := ctx.Err(); err != nil {
 		return err
+	}
+	l.mu.Lock()
+	st := l.stall
+	l.mu.Unlock()
+	if st {
+		// The transport takes nothing: the call returns only when its
+		// context ends (what a blocked stream write does).
+		<-ctx.Done()
+		vrt.Woke("net.send:" + l.name)
+		return ctx.Err()
 	}
 	l.w.sendMu.Lock()
 	defer l.w.sendMu.Unlock()
